@@ -363,6 +363,65 @@ func firstUseScenario(rng *RNG) string {
 	return fmt.Sprintf("c20 seq E:firstuse%d K:%s:%s F:0", n, c.connInfo(), strings.Join(ci, ","))
 }
 
+// lateBatchErrorScenario (C20): a connection delivers server-class errors to two calls of one
+// batch; the second error reaches the client only after the first one has been handled and the
+// region has been re-established on a new connection. The late error belongs to the old
+// connection: the healthy new one stays in use.
+func lateBatchErrorScenario() string {
+	setSleepOverride(fastBackoff)
+	c := newSimCluster()
+	r := c.addRegion(nil, []byte("t"), nil, nil, "rs1:1")
+	c.keyRelease = make(chan struct{})
+	sc := newSimClient(c)
+	defer sc.cl.Close()
+	ctx, cancel := context.WithTimeout(context.Background(), 8*time.Second)
+	defer cancel()
+	g0, _ := hrpc.NewGet(ctx, []byte("t"), []byte("warm"))
+	sc.cl.Get(g0)
+	c.mu.Lock()
+	r.keyFaults = map[string][]string{"k1": {"connErr"}, "k2": {"HOLD:connErr"}}
+	c.mu.Unlock()
+	done := make(chan bool, 1)
+	go func() {
+		g1, _ := hrpc.NewGet(ctx, []byte("t"), []byte("k1"))
+		g2, _ := hrpc.NewGet(ctx, []byte("t"), []byte("k2"))
+		_, ok := sc.cl.SendBatch(ctx, []hrpc.Call{g1, g2})
+		done <- ok
+	}()
+	// wait until the region is available again on a new connection
+	for i := 0; i < 400; i++ {
+		time.Sleep(5 * time.Millisecond)
+		c.mu.Lock()
+		n := len(c.conns)
+		c.mu.Unlock()
+		regs := sc.v.CachedRegions()
+		if n >= 3 && len(regs) > 0 && !regs[0].IsUnavailable() && regs[0].Client() != nil { // meta + old + new
+			break
+		}
+	}
+	close(c.keyRelease)
+	res := "blocked"
+	select {
+	case ok := <-done:
+		res = "failed"
+		if ok {
+			res = "ok"
+		}
+	case <-time.After(8 * time.Second):
+	}
+	settle()
+	cache := sc.v.ConnCacheAddrs()
+	sort.Strings(cache)
+	var ci []string
+	for _, a := range cache {
+		ci = append(ci, fmt.Sprint(addrIdx(a)))
+	}
+	if len(ci) == 0 {
+		ci = []string{"-"}
+	}
+	return fmt.Sprintf("c20 seq E:late-batch-error-%s K:%s:%s F:0", res, c.connInfo(), strings.Join(ci, ","))
+}
+
 // FATALMARK is translated by the sim into the fatal exception; keep excClass in sync.
 func init() { excClass["FATALMARK"] = "org.apache.hadoop.hbase.DoNotRetryIOException" }
 
@@ -553,6 +612,84 @@ func probeAfterDeath() string {
 	return fmt.Sprintf("c09 script probe-after-death %s,%s,%s,%s unavailable=%d", r1, r2, r3, r4, unavailable)
 }
 
+// metaColocatedScenario (C09): hbase:meta and a user region are served through the same
+// connection; the connection is lost and the loss is noticed through a request on the user region.
+// Re-establishing the user region needs hbase:meta, which has to be re-established too — neither
+// may wait for the other.
+func metaColocatedScenario() string {
+	setSleepOverride(fastBackoff)
+	defer setSleepOverride(nil)
+	c := newSimCluster()
+	c.metaAddr = "rs1:1"
+	r := c.addRegion(nil, []byte("t"), nil, nil, "rs1:1")
+	c.addRegion(nil, []byte("u"), nil, nil, "rs1:1")
+	sc := newSimClient(c)
+	defer sc.cl.Close()
+	get := func(t, k string) string {
+		ctx, cancel := context.WithTimeout(context.Background(), 6*time.Second)
+		defer cancel()
+		g, _ := hrpc.NewGet(ctx, []byte(t), []byte(k))
+		_, err := sc.cl.Get(g)
+		return classOf(err)
+	}
+	r1, r2 := get("t", "a"), get("u", "a")
+	c.mu.Lock()
+	for _, s := range c.conns {
+		if s.addr == "rs1:1" {
+			atomic.StoreInt32(&s.closed, 1) // the shared connection dies (the server itself is fine)
+			atomic.StoreInt32(&s.failed, 1)
+			atomic.StoreInt32(&s.deadOK, 1)
+		}
+	}
+	_ = r
+	c.mu.Unlock()
+	r3 := get("t", "b")
+	r4 := get("u", "b")
+	r5 := get("v-unknown", "b") // needs a fresh meta lookup
+	if r5 == "tablenotfound" {
+		r5 = "ok"
+	}
+	settle()
+	unavailable := 0
+	for _, ok := range sc.v.VerifAvailability() {
+		if !ok {
+			unavailable++
+		}
+	}
+	if sc.v.MetaRegionInfo().IsUnavailable() {
+		unavailable++
+	}
+	return fmt.Sprintf("c09 script meta-colocated %s,%s,%s,%s,%s unavailable=%d", r1, r2, r3, r4, r5, unavailable)
+}
+
+// probeFatalScenario (C04): the availability probe of a region is answered with an application
+// exception that is none of the classes the client knows (e.g. the user may not read the table).
+// That says nothing against the region being there: requests go through and get their own answers.
+func probeFatalScenario() string {
+	setSleepOverride(fastBackoff)
+	defer setSleepOverride(nil)
+	c := newSimCluster()
+	r := c.addRegion(nil, []byte("t"), nil, nil, "rs1:1")
+	c.mu.Lock()
+	r.faults = append(r.faults, "PROBE:fatal", "PROBE:fatal", "PROBE:fatal")
+	c.mu.Unlock()
+	sc := newSimClient(c)
+	defer sc.cl.Close()
+	ctx, cancel := context.WithTimeout(context.Background(), 5*time.Second)
+	defer cancel()
+	p, _ := hrpc.NewPut(ctx, []byte("t"), []byte("k"), map[string]map[string][]byte{"f": {"q": []byte("v")}})
+	_, err := sc.cl.Put(p)
+	r1 := classOf(err)
+	settle()
+	unavailable := 0
+	for _, ok := range sc.v.VerifAvailability() {
+		if !ok {
+			unavailable++
+		}
+	}
+	return fmt.Sprintf("c04 script probe-answered-with-application-exception %s unavailable=%d", r1, unavailable)
+}
+
 // ---- C13 / C19: wait states with real time ------------------------------------------------
 
 type waitState struct {
@@ -608,6 +745,9 @@ var closeOnlyStates = []waitState{
 			}
 		}
 	}},
+	// the first call of a client is looking for hbase:meta while ZooKeeper keeps failing (errors,
+	// not silence): Close must end that search
+	{"first-call-zk-down", func(c *simCluster) { atomic.StoreInt32(&c.zkErr, 1<<20) }},
 	// a client that was never used is closed while ZooKeeper is unreachable; a call made afterwards
 	// is refused and must not leave anything behind that keeps looking for hbase:meta
 	{"unused-zk-down", func(c *simCluster) { atomic.StoreInt32(&c.zkErr, 1<<20) }},
@@ -839,6 +979,44 @@ func scanOpenScenario(between bool) string {
 	}
 }
 
+// closeWithRenewingScan (C19): a scan that renews its scanner lease is open in the middle of a
+// region (the application is between two Next calls) when the client is closed. The renewer must
+// not outlive the client.
+func closeWithRenewingScan() string {
+	setSleepOverride(nil)
+	c := buildCluster(NewRNG(3, "c19scan"))
+	c.scanRows = true
+	sc := newSimClient(c, gohbase.RegionLookupTimeout(time.Second))
+	s, _ := hrpc.NewScanRange(context.Background(), []byte("t"), []byte("a"), []byte("z"), hrpc.NumberOfRows(1),
+		hrpc.RenewInterval(5*time.Millisecond))
+	sn := sc.cl.Scan(s)
+	inflight := "none"
+	if _, err := sn.Next(); err != nil {
+		inflight = "setup-failed"
+	}
+	time.Sleep(30 * time.Millisecond) // a few renewals
+	t0 := time.Now()
+	sc.cl.Close()
+	closeLat := time.Since(t0)
+	g, _ := hrpc.NewGet(context.Background(), []byte("t"), []byte("b"))
+	_, err := sc.cl.Get(g)
+	later := classOf(err)
+	time.Sleep(100 * time.Millisecond)
+	buf := make([]byte, 1<<20)
+	n := runtime.Stack(buf, true)
+	renewers := strings.Count(string(buf[:n]), "renewLoop")
+	c.mu.Lock()
+	open := 0
+	for _, x := range c.conns {
+		if atomic.LoadInt32(&x.closed) == 0 && atomic.LoadInt32(&x.failed) == 0 {
+			open++
+		}
+	}
+	c.mu.Unlock()
+	return fmt.Sprintf("c19 close open-renewing-scan %d %s 0 %s 0 open=%d late=0 gor=%d second=ok renewers=%d",
+		closeLat.Microseconds(), inflight, later, open, 3*renewers, renewers)
+}
+
 // busyQueueScenario (C13): at the level of one region connection. The batching goroutine is stuck
 // inside a Write (the peer does not read); a second batchable call is handed to the connection and
 // waits for the send queue; its context ends: QueueRPC must return promptly.
@@ -1000,6 +1178,30 @@ func closeScenarioAfter(state *waitState, wait time.Duration) string {
 	select {
 	case later = <-lc:
 	case <-time.After(2 * time.Second):
+	}
+	// ... and the other entry points: a scan, a batch, the region pre-fetch
+	for _, api := range []string{"scan", "batch", "cacheregions"} {
+		api := api
+		ac := make(chan string, 1)
+		go func() {
+			if api == "cacheregions" {
+				ac <- classOf(sc.cl.CacheRegions([]byte("t")))
+				return
+			}
+			ac <- apiCall(sc, api, context.Background())
+		}()
+		select {
+		case r := <-ac:
+			refused := true
+			for _, part := range strings.Split(r, "+") {
+				refused = refused && part == "clientclosed"
+			}
+			if later == "clientclosed" && !refused {
+				later = api + "-" + r
+			}
+		case <-time.After(2 * time.Second):
+			later = api + "-blocked"
+		}
 	}
 	laterLat := time.Since(t1)
 	// release anything the environment was holding so that goroutines can finish
@@ -1302,6 +1504,9 @@ func init() {
 			if shard == 1%nsh {
 				emit(metaSlowScenario(true))
 			}
+			if shard == 2%nsh {
+				emit(probeFatalScenario())
+			}
 		})
 	}
 	// C01, wire level: the same sequential scenarios; the monitor checks that every request that
@@ -1346,6 +1551,12 @@ func init() {
 			for i := shard; i < 16; i += nsh {
 				emit(ccConcurrent(NewRNG(seed, fmt.Sprintf("ccc-%d", i))))
 			}
+			for i := shard; i < 32; i += nsh {
+				emit(dialOnceScenario(NewRNG(seed, fmt.Sprintf("dial-%d", i))))
+			}
+			if shard == 3%nsh {
+				emit(lateBatchErrorScenario())
+			}
 		})
 	}
 	props["C09"] = func(tier string, seed uint64, out *Out) {
@@ -1363,6 +1574,9 @@ func init() {
 			}
 			if shard == 0 && !raceChild {
 				emit(probeAfterDeath())
+			}
+			if shard == 1%nsh && !raceChild {
+				emit(metaColocatedScenario())
 			}
 			if !raceChild {
 				for i := shard; i < 20*n; i += nsh {
@@ -1416,6 +1630,7 @@ func init() {
 		jobs = append(jobs, func() string { return closeScenario(nil) })
 		jobs = append(jobs, closeAfterReplacedRegion)
 		jobs = append(jobs, closeDuringDialReal)
+		jobs = append(jobs, closeWithRenewingScan)
 		for _, st := range append(append([]waitState{}, waitStates...), closeOnlyStates...) {
 			st := st
 			jobs = append(jobs, func() string { return closeScenario(&st) })
